@@ -216,7 +216,8 @@ CHECKS = {
               "interval, one multi-frame run writing files); eof (the source ends after record k); cutoff (num_events_to_store); "
               "lm_gradient (list-mode objective function with a small event cache -> several cache files, optional second object re-using "
               "them, vs the projection-data objective function of the histogram: sensitivity, gradient, gradient+sensitivity, Hessian x "
-              "vector).  omp part: list-mode sensitivity / gradient / value / Hessian product with 2..16 simulated threads vs one thread.  "
+              "vector); lm_cache_write_error (ENOSPC / EIO at a drawn write call while the event cache is written: reported by set_up or by "
+              "a later request, or results right all the same).  omp part: list-mode sensitivity / gradient / value / Hessian product with 2..16 simulated threads vs one thread.  "
               "Non-trivial: every run (omp: >= 1 context switch); distinct = event-log hash / schedule hash."),
         components=dict(real=REAL_COMMON + ["LmToProjData (frame loop, segment/TOF batches, rewind through saved positions, cut-off), "
                                             "CListEventScannerWithDiscreteDetectors::get_bin, ProjDataInfo bin mapping, ProjDataInMemory / Interfile output, "
